@@ -56,6 +56,7 @@ inductive Fr where
   | rst (id code : Nat)      -- RST_STREAM
   | goaway (code : Nat)
   | resp (id : Nat)          -- response HEADERS with END_STREAM
+  | ack                      -- SETTINGS ack
 deriving DecidableEq, Repr
 
 inductive Ev where
@@ -71,6 +72,10 @@ inductive Ev where
   | deliver (id : Nat)
   /-- `resetStream` from a stream error / stream timeout detected by the server (code CANCEL here) -/
   | srvReset (id : Nat)
+  /-- the client's own SETTINGS (e.g. INITIAL_WINDOW_SIZE = v): concerns the server's SEND windows only -/
+  | clientSettings (v : Nat)
+  /-- the client's WINDOW_UPDATE: concerns the server's SEND windows only -/
+  | clientWU (id inc : Nat)
   /-- harness op Q: pull; then a close (`how` 0 client RST_STREAM, 1 server reset, 2 none); then deliver -/
   | readThenClose (id n how : Nat)
 deriving Repr
@@ -285,6 +290,8 @@ def step (s : St) : Ev → String × List Fr × St
   | .pull id n => handlerPull s id n
   | .deliver id => deliverNote s id
   | .srvReset id => let r := serverReset s id; ("", r.1, r.2)
+  | .clientSettings _ => ("", [.ack], s)
+  | .clientWU _ _ => ("", [], s)
   | .readThenClose id n how =>
     let a := handlerPull s id n
     if a.1 == "x" || a.1 == "rb" then a
